@@ -11,7 +11,7 @@ def run_c13(ctx):
     ctx.rule = ("random operation sequences on one MsgSigner (<= 32 messages, lengths 0..4096, 1..17 chunks "
                 "incl. empty chunks); the model names the byte strings signed, one-shot dalek and the Python "
                 "RFC 8032 code sign them, all signature lists must agree; verifier on valid triples and "
-                "single-bit corruptions of message / signature / key; non-trivial = distinct sequence with "
+                "single-bit corruptions of message / signature / key, messages 0..4096 bytes in 1..17 chunks incl. cuts at multiples of 1024; non-trivial = distinct sequence with "
                 ">= 2 messages on one signer, or a corrupted triple")
     vlib.prepare(ctx)
     r = ctx.rng
@@ -72,13 +72,20 @@ def run_c13(ctx):
     ctx.sample({"signer": lines[0][:200], "impl": impl[0][:200], "model": model[0][:120]})
     # ---- verifier
     vcases = []
-    for k in range(40 if not ctx.thorough else 300):
+    for k in range(60 if not ctx.thorough else 600):
         seed = rnd(r, 32)
-        msg = rnd(r, r.choice([0, 1, 32, 100, 1000]))
+        # the property's range is 0..=4096 bytes; lengths around the buffers' 1024-byte growth step,
+        # fed in one chunk, in a few, in many, and cut exactly at / just around multiples of 1024
+        msg = rnd(r, [0, 1, 32, 100, 1000, 1023, 1024, 1025, 1500, 2047, 2048, 2049, 3000, 4095, 4096][k % 15]
+                  if k % 4 else r.randint(0, 4096))
         pk = ed25519.secret_to_public(seed)
         sg = ed25519.sign(seed, msg)
-        nch = r.randint(1, 5)
-        cuts = sorted(r.randint(0, len(msg)) for _ in range(nch - 1))
+        nch = [1, 1, 2, 3, 5, 17][(k // 3) % 6]
+        if k % 5 == 0 and len(msg) > 1024:
+            cuts = sorted(min(len(msg), max(0, 1024 * j + r.choice([-1, 0, 1]))) for j in range(1, len(msg) // 1024 + 1))
+        else:
+            cuts = sorted(r.randint(0, len(msg)) for _ in range(nch - 1))
+        ctx.count("verify:chunks=%d,len>1024=%s" % (len(cuts) + 1, len(msg) > 1024))
         def chunked(m):
             return [m[a:b] for a, b in zip([0] + cuts, cuts + [len(m)])]
         vcases.append((pk, chunked(msg), sg, "valid"))
